@@ -15,7 +15,9 @@ def main():
     from oasmc.checks import c20
 
     obs = None
-    for cfg in job["cfgs"]:
+    for k in job.get("gens", []):
+        obs = c20.gen_call(k)[0]
+    for cfg in job.get("cfgs", []):
         sc = c20.Script(cfg, job["fam"])
         sc.OPS = ["setup", "run", "totals"]
         for _ in sc.OPS:
